@@ -10,7 +10,7 @@ open Gen
 
 theorem lex_printExpr {e : XExpr} (h : wf e = true) :
     lex (printExpr e) = some (toks e lowestPrec) := by
-  obtain ⟨_, ⟨hs, _⟩, _⟩ := sound_printE e h lowestPrec 1 none rfl
+  obtain ⟨_, ⟨hs, _⟩, _⟩ := sound_printE e h lowestPrec 1 none (okFor_delim rfl)
   rw [printExpr, lex_emit hs]
   rfl
 
@@ -74,8 +74,61 @@ theorem size_le_toks : ∀ (e : XExpr), wf e = true → ∀ p, size e ≤ (toks 
   | .composite .., h, _ => by simp [wf] at h
   | .kv .., h, _ => by simp [wf] at h
   | .sliceLit .., h, _ => by simp [wf] at h
-  | .lambda .., h, _ => by simp [wf] at h
-  | .typeAssert .., h, _ => by simp [wf] at h
+  | .typeAssert x ty, h, p => by
+    have hx : wf x = true := by
+      cases ty with
+      | none => simpa [wf] using h
+      | some t => cases t <;> simp [wf] at h; exact h
+    have := size_le_toks x hx highestPrec
+    cases ty <;> simp [size, toks_typeAssert_some, toks_typeAssert_none] <;> omega
+  | .lambda lhs lp rhs rp, h, p => by
+    have h' := h
+    simp only [wf, Bool.and_eq_true, Bool.or_eq_true, decide_eq_true_eq] at h'
+    obtain ⟨hl, hr⟩ := h'
+    have hlhs : lhs.length ≤ (lhsT lhs lp).length := by
+      cases lp with
+      | true =>
+        simp only [lhsT, if_true]
+        cases lhs with
+        | nil => simp
+        | cons s l =>
+          rw [strip_identToks_cons]
+          have : ∀ l : List Str, l.length ≤ (commaIdents l).length := by
+            intro l; induction l with
+            | nil => simp [commaIdents]
+            | cons a t ih => simp [commaIdents]; omega
+          have := this l
+          simp; omega
+      | false =>
+        rcases hl with hl | hl
+        · cases hl
+        · cases lhs with
+          | nil => simp
+          | cons s l =>
+            cases l with
+            | nil => simp [lhsT]
+            | cons s2 l2 => simp at hl
+    have hrhs : (if rp then sizeL rhs else sizeB rhs) ≤ (rhsT rhs rp).length := by
+      cases rp with
+      | true =>
+        simp only [if_true, Bool.and_eq_true] at hr ⊢
+        have := sizeL_le_toksL rhs hr.2
+        simp [rhsT]; omega
+      | false =>
+        simp only [Bool.false_eq_true, if_false] at hr ⊢
+        cases rhs with
+        | nil => simp [wfB] at hr
+        | cons b rest =>
+          cases rest with
+          | cons b2 r2 => simp [wfB] at hr
+          | nil =>
+            simp only [wfB, Bool.and_eq_true] at hr
+            have hwfL : wfL [b] = true := by simp [wfL, hr.1]
+            have := sizeL_le_toksL [b] hwfL
+            simp only [sizeL, toksL_one] at this
+            simp [sizeB, rhsT]; omega
+    simp only [size, toks_lambda, wrapT]
+    by_cases hw : lowestPrec < p <;> simp [hw] <;> omega
   | .range .., h, _ => by simp [wf] at h
   | .tuple .., h, _ => by simp [wf] at h
   | .bad, h, _ => by simp [wf] at h
@@ -216,8 +269,43 @@ theorem deparen_norm : ∀ (e : XExpr), wf e = true → noParen e = true → ∀
   | .composite .., h, _, _ => by simp [wf] at h
   | .kv .., h, _, _ => by simp [wf] at h
   | .sliceLit .., h, _, _ => by simp [wf] at h
-  | .lambda .., h, _, _ => by simp [wf] at h
-  | .typeAssert .., h, _, _ => by simp [wf] at h
+  | .typeAssert x ty, h, hn, p => by
+    have hx : wf x = true := by
+      cases ty with
+      | none => simpa [wf] using h
+      | some t => cases t <;> simp [wf] at h; exact h
+    cases ty with
+    | none =>
+      have hn' : noParen x = true := by simpa [noParen, noParenO] using hn
+      simp [norm, deparen, deparenO, deparen_norm x hx hn']
+    | some t =>
+      cases t <;> simp [wf] at h
+      have hn' : noParen x = true := by simpa [noParen, noParenO] using hn
+      simp [norm, deparen, deparenO, deparen_norm x hx hn']
+  | .lambda lhs lp rhs rp, h, hn, p => by
+    have h' := h
+    simp only [wf, Bool.and_eq_true, Bool.or_eq_true, decide_eq_true_eq] at h'
+    obtain ⟨_, hr⟩ := h'
+    have hn' : noParenL rhs = true := by simpa [noParen] using hn
+    simp only [norm, deparen_wrapP, deparen]
+    cases rp with
+    | true =>
+      simp only [if_true, Bool.and_eq_true] at hr ⊢
+      rw [deparenL_normL rhs hr.2 hn']
+    | false =>
+      simp only [Bool.false_eq_true, if_false] at hr ⊢
+      cases rhs with
+      | nil => simp [wfB] at hr
+      | cons b rest =>
+        cases rest with
+        | cons b2 r2 => simp [wfB] at hr
+        | nil =>
+          simp only [wfB, Bool.and_eq_true] at hr
+          have hwfL : wfL [b] = true := by simp [wfL, hr.1]
+          have e1 : deparen (norm b lowestPrec) = b := by
+            have := deparenL_normL [b] hwfL hn'
+            simpa [normL, deparenL] using this
+          simp [normB, deparenL, e1]
   | .range .., h, _, _ => by simp [wf] at h
   | .tuple .., h, _, _ => by simp [wf] at h
   | .bad, h, _, _ => by simp [wf] at h
@@ -246,10 +334,15 @@ def shaped : XExpr → Nat → Bool
   | .call f args _ _, _ => shaped f highestPrec && shapedL args
   | .errWrap x _ none, _ => shaped x highestPrec
   | .errWrap x _ (some d), p => decide (p ≤ unaryPrec) && shaped x highestPrec && shaped d unaryPrec
+  | .typeAssert x _, _ => shaped x highestPrec
+  | .lambda _ _ rhs rp, p => decide (p ≤ lowestPrec) && (if rp then shapedL rhs else shapedB rhs)
   | _, _ => true
 def shapedL : List XExpr → Bool
   | [] => true
   | e :: r => shaped e lowestPrec && shapedL r
+def shapedB : List XExpr → Bool
+  | [b] => shaped b lowestPrec
+  | _ => true
 end
 
 mutual
@@ -295,8 +388,33 @@ theorem norm_shaped : ∀ (e : XExpr) (p : Nat), shaped e p = true → norm e p 
   | .composite .., _, _ => by simp [norm]
   | .kv .., _, _ => by simp [norm]
   | .sliceLit .., _, _ => by simp [norm]
-  | .lambda .., _, _ => by simp [norm]
-  | .typeAssert .., _, _ => by simp [norm]
+  | .typeAssert x ty, p, h => by
+    have h' : shaped x highestPrec = true := by simpa [shaped] using h
+    simp [norm, norm_shaped x _ h']
+  | .lambda lhs lp rhs rp, p, h => by
+    have h' := h
+    simp only [shaped, Bool.and_eq_true, decide_eq_true_eq] at h'
+    simp only [norm, wrapP, Nat.not_lt.mpr h'.1, decide_false, Bool.false_eq_true, if_false]
+    cases rp with
+    | true =>
+      simp only [if_true] at h' ⊢
+      rw [normL_shaped rhs h'.2]
+    | false =>
+      simp only [Bool.false_eq_true, if_false] at h' ⊢
+      cases rhs with
+      | nil => rfl
+      | cons b rest =>
+        cases rest with
+        | cons b2 r2 => rfl
+        | nil =>
+          have hb : shapedL [b] = true := by
+            have := h'.2
+            simp only [shapedB] at this
+            simp [shapedL, this]
+          have e1 : norm b lowestPrec = b := by
+            have := normL_shaped [b] hb
+            simpa [normL] using this
+          simp [normB, e1]
   | .range .., _, _ => by simp [norm]
   | .tuple .., _, _ => by simp [norm]
   | .bad, _, _ => by simp [norm]
